@@ -55,7 +55,7 @@ def cases(draw, tier):
     return {"params": {"change_score": sc, "bandwidth": bw, "threshold_scale": scale, "level": draw(K.level_strategy),
                        "min_detection_interval": mdi}, "X": X,
             "as_int64": integral and draw(st.booleans()),
-            "n_train": draw(st.sampled_from([None, None, "shorter", "longer"]))}
+            "n_train": draw(st.sampled_from([None, None, "shorter", "longer", "same_buffer"]))}
 
 
 def model_scores(params, X):
@@ -78,8 +78,13 @@ def check(case):
     Xin = X.astype(np.int64) if case.get("as_int64") else X  # integer-valued data may arrive as an integer array
     from checks.c07 import training_data
     Xtrain = training_data(Xin, case.get("n_train"), 2 * b, params["change_score"])
+    if case.get("n_train") == "same_buffer":
+        Xtrain = (Xtrain.astype(Xin.dtype) if Xin.dtype.kind == "i" else Xtrain).copy()
     with sut("MovingWindow.fit/transform_scores/predict"):
         det = K.build(K.detector_spec("MovingWindow", params)).fit(Xtrain)
+        if case.get("n_train") == "same_buffer":
+            Xtrain[:] = Xin  # the buffer the detector was fitted on is refilled in place with the new data
+            Xin = Xtrain
         scores = det.transform_scores(Xin)
         y = det.predict(Xin)
         thr = float(det.threshold_)
@@ -134,6 +139,8 @@ def check(case):
         classes.append("int64_input")
     if len(Xtrain) != n:
         classes.append("fitted_on_other_length")
+    if case.get("n_train") == "same_buffer":
+        classes.append("buffer_refilled_after_fit")
     if cpts:
         classes.append("has_changepoint")
     return {"nontrivial": bool(cpts), "classes": classes}
